@@ -495,6 +495,11 @@ def register(gen, T):
                 arm, gk = ".enumLookup", "always"
             elif r.startswith("panic!"):
                 arm, gk = ".panics", "always" if g is None else None
+            elif re.fullmatch(r'return Err\(GenerateError::([A-Za-z0-9]+)\)', r):
+                # since fixes 6017bad / 9824ce3: an IntLiteral beyond +-u64::MAX is `Err(GenerateError::IntLiteralOutOfRange)`,
+                # a Float64 constant `Err(GenerateError::UnsupportedDouble)` — the export is refused, nothing panics
+                em = re.fullmatch(r'return Err\(GenerateError::([A-Za-z0-9]+)\)', r)
+                arm, gk = f".errs {lean_str(em.group(1))}", "always" if g is None else None
             else:
                 m = re.fullmatch(r'ast::Literal::([A-Za-z0-9]+)\((.*)\)', r)
                 mneg = re.search(r'return Ok\(ast::Expression::UnaryOperation\( ast::UnaryOp::Minus, Box::new\(Located::none\('
@@ -638,7 +643,8 @@ def register(gen, T):
             "ast::InitStatement::Expression(Located::none(generate_expression(expr, context)?)) } ir::ForInit::Definitions(defs) => { "
             "let (head, tail) = defs.split_first().unwrap(); let mut ast = generate_variable_definition(head, context)?; "
             "assert_eq!(ast.defs.len(), 1); for def in tail { let mut tail_ast = generate_variable_definition(def, context)?; "
-            "assert_eq!(ast.local_type, tail_ast.local_type); assert_eq!(tail_ast.defs.len(), 1); ast.defs.append(&mut tail_ast.defs); } "
+            "if ast.local_type != tail_ast.local_type { return Err(GenerateError::ComplexTypeBind); } assert_eq!(tail_ast.defs.len(), 1); "
+            "ast.defs.append(&mut tail_ast.defs); } "
             "ast::InitStatement::Declaration(ast) } }; Ok(ast)")
         out.append(f"def mslVariableDefinitionAsModelled : Bool := {lb(gvd)}\n"
                    f"def mslForInitAsModelled : Bool := {lb(gfi_)}\n\n")
